@@ -18,6 +18,13 @@ for p in sys.argv[2:]:
         if e.get('Action') == 'pass' and e.get('Test'):
             passed.add('%s::%s' % (e['Package'], e['Test']))
     lost = sorted(want - passed)
+    # tests lost because the untagged package run crashed in another test are re-run on their own
+    still = []
+    for t in lost:
+        name = t.split('::')[1].split('/')[0]
+        r2 = subprocess.run("go test -vet=off -count=1 -timeout 10m -run '^%s$' ./%s/" % (name, p.strip('./')), shell=True, cwd=repo, env=env, capture_output=True, text=True)
+        if r2.returncode != 0: still.append(t)
+    lost = still
     print(p, 'stable tests:', len(want), 'lost:', len(lost))
     for l in lost[:20]: print('  LOST', l)
     lost_all += lost
